@@ -181,7 +181,14 @@ def check_first(first, trailing, delivery, plain=False, scratch=None):
             )
         except Exception:  # noqa: BLE001
             return None, "refused"
-        out = p.dumps()
+        try:
+            out = p.dumps()
+        except Exception as e:  # noqa: BLE001
+            return (
+                Failure(case, f"{first!r} was parsed ({delivery}) but re-serialising the untouched "
+                        f"result raises {type(e).__name__}: {e}"),
+                "parsed",
+            )
         if out != first:
             return (
                 Failure(case, f"dumps() of {first!r} delivered as {delivery} gives {out!r}"),
@@ -243,7 +250,10 @@ def check_stack(parts, delivery="bytes"):
         )
     except Exception:  # noqa: BLE001
         return None, "refused"
-    got = [p.dumps() for p in sp]
+    try:
+        got = [p.dumps() for p in sp]
+    except Exception as e:  # noqa: BLE001
+        return Failure(case, f"re-serialising an untouched stack element raises {type(e).__name__}: {e}"), "stack"
     if len(got) != len(parts):
         return (
             Failure(case, f"stack of {len(parts)} pickles parsed as {len(got)} elements"),
